@@ -73,7 +73,8 @@ Fixpoint seqs (l : list re) : re :=
    when Gen/MetaTables.v is present (tools/translate_meta.py); see Proofs/MetaVmdk.v. *)
 Definition ACCESS_MODES : list (list Z) := [lit "RW"; lit "RDONLY"; lit "NOACCESS"].
 Definition EXTENT_TYPES : list (list Z) :=
-  [lit "SPARSE"; lit "ZERO"; lit "FLAT"; lit "VMFS"; lit "VMFSSPARSE"; lit "VMFSRDM"; lit "VMFSRAW"].
+  [lit "SPARSE"; lit "ZERO"; lit "FLAT"; lit "VMFS"; lit "VMFSSPARSE"; lit "VMFSRDM"; lit "VMFSRAW";
+   lit "SESPARSE"].
 
 Definition re_extent_of (access types : list (list Z)) : re :=
   seqs [RGrp 1 (alts (map RLit access)); RCls CSpace;
